@@ -77,3 +77,37 @@ def _reg(spec, model):
                 elif Adsorbate.find(v) is not a:
                     bad.append({'string': v, 'find_returns': Adsorbate.find(v).name, 'expected': a.name})
     return {'confirmed': bool(bad), 'observed': bad[:4]}
+
+
+@replayer('c20.store')
+def _store(spec, model):
+    """store a shipped adsorbate into a copy of the packaged database, then resolve it by name (subprocess-free: the registry is restored)"""
+    import os
+    import shutil
+    import tempfile
+    import pygaps
+    import pygaps.parsing.sqlite as SQ
+    from pygaps.core.adsorbate import Adsorbate
+    pygaps.logger.disabled = True
+    tmp = tempfile.mkdtemp(prefix='pgv-c20r-')
+    reg = list(pygaps.ADSORBATE_LIST)
+    bad = []
+    try:
+        db = os.path.join(tmp, 'copy.db')
+        shutil.copyfile(os.path.join(os.path.dirname(pygaps.data.__file__), 'default.db'), db)
+        ads = Adsorbate.find('nitrogen')
+        saved = list(ads.alias)
+        SQ.adsorbate_to_db(ads, db_path=db, overwrite=True, verbose=False)
+        if sorted(ads.alias) != sorted(saved):
+            bad.append({'aliases_before': sorted(saved), 'aliases_after': sorted(ads.alias)})
+        for v in ('nitrogen', 'Nitrogen', 'NITROGEN', 'N2'):
+            try:
+                if Adsorbate.find(v) is not ads:
+                    bad.append({'find': v, 'result': 'another object'})
+            except Exception as exc:
+                bad.append({'find': v, 'result': type(exc).__name__})
+        ads.alias[:] = saved
+    finally:
+        pygaps.ADSORBATE_LIST[:] = reg
+        shutil.rmtree(tmp, ignore_errors=True)
+    return {'confirmed': bool(bad), 'observed': bad[:4], 'expected': 'adsorbate unchanged and still found by its name'}
